@@ -146,7 +146,7 @@ def _make(sel, exp):
 
 def h_contained(ksel: int, kexp: int) -> bool:
     """
-    pre: 0 <= ksel < 8 and 0 <= kexp < 5
+    pre: ksel == rt.part(8)[0] and 0 <= kexp < 5
     post: _
     """
     _build()
@@ -340,8 +340,8 @@ _U = ('universe: A, X extending A (incl. a relation between two base synsets), B
       'ids/forms/ILIs as A, C in another language sharing ILIs, U unrelated, D requiring P:1, two '
       'versions of P')
 OBLIGATIONS = [
-    Ob('containment', 'h_contained', quick=dict(timeout=280), thorough=dict(timeout=900),
-       canary=[('sense-relation-target-filter', 0)], functions=_FA,
+    Ob('containment', 'h_contained', parts=8, quick=dict(timeout=200), thorough=dict(timeout=900),
+       canary=[('sense-relation-target-filter', 7)], functions=_FA,
        stubs=['vf.sqlmodel', 'normalize_form = identity'],
        symbolic='lexicon argument ' + str(SELECTIONS) + ', expand argument ' + str(EXPANDS),
        bounds=_U),
